@@ -32,7 +32,7 @@ CLAIMS = {
             '(Verus, ghost accepted set). Packet::decode (Kani, complete for datagrams 0..=48 bytes, all prefix bytes): window consulted before the AEAD, advanced only '
             'after the AEAD accepted that datagram, AAD = version||protocol id||prefix, nonce = decoded sequence, ciphertext = whole remainder.',
             'Assumed: AEAD idealisation (chacha20poly1305 is stubbed by its contract). Sentinel: sequence 2^64-1 is the EMPTY marker and excluded. '
-            'Not decided: server-side gating in NetcodeServer (out of reach).'),
+            'Server side (U19): a payload is reported only for a connected session at the sending address, from a datagram Packet::decode accepted under that session\'s key with its replay window. Not decided: update_client.'),
     'C06': ('No precondition on wire-controlled arguments: SliceConstructor, both receive channels (as listed in the evidence) and the ack list return for every input, '
             'without index/overflow/unreachable failures, keep memory == sum of what is stored <= max.',
             'RenetClient::process_packet is proved verbatim with no precondition on the bytes (U15): it returns for every input; undecodable bytes, an unknown channel id or a channel error only move the connection '
@@ -69,11 +69,22 @@ CLAIMS = {
     'C17': ('Usage contract of the AEAD in Packet::encode/decode: sealed exactly once with (sequence, key), AAD binds version, protocol id and prefix byte, nonce is the '
             'decoded sequence, ciphertext is everything after the sequence bytes (Kani, complete).',
             'Assumed: the AEAD itself. Not decided: nonce uniqueness across server global_sequence / per-connection sequence (NetcodeServer, out of reach).'),
-    'C19': ('Size relation only: decode yields ConnectionRequest only from >= 1078 bytes; Challenge encodes to <= 333 and ConnectionDenied to <= 25 bytes, both < 1078 (Kani, complete).',
-            'Not decided: "at most one datagram, same address, none for invalid tokens" (control flow of NetcodeServer, out of reach).'),
+    'C19': ('Size relation: decode yields ConnectionRequest only from >= 1078 bytes; Challenge encodes to <= 333 and ConnectionDenied to <= 25 bytes, both < 1078 (Kani, complete). '
+            'Control flow (Verus, U19, verbatim): process_packet_internal / handle_connection_request answer a datagram with at most one datagram, addressed to the sender, of at most 333 bytes, and only for a request whose token is authentic, '
+            'unexpired and not presented from another address before; every error path returns no datagram.',
+            'Assumed: AEAD idealisation; encode lengths as proved by the U11 harnesses; one-line iterator chains by assumed functions. Not decided: update_client (keep-alive / disconnect packets to connected clients, not unproven addresses).'),
 }
 
 CLAIMS.update({
+    'C05': ('NetcodeServer::{handle_connection_request, find_or_add_connect_token_entry, process_packet_internal} proved verbatim (Verus, U19): a request is answered only if its private token opens under the '
+            'server key/protocol id/expiry it names, the clock is before the expiry, the address is not connected, and the token was not presented from another address before (token table: one entry per MAC, '
+            'first address wins); ClientConnected is reported only for a half-open session at that address whose response echoes a challenge this server sealed for the same client id and user data, which are the ones reported.',
+            'Assumed: AEAD idealisation (token_authentic / challenge_authentic / sealed_under are uninterpreted: opening succeeds only for what the key sealed); one-line iterator chains replaced by assumed functions '
+            '(host list test, free-slot search, find_client_*); history assumptions (counters not wrapped). Not decided: the wrong-host clause beyond the assumed host-list function; the version-info comparison (array != has no spec in this Verus); update/update_client time-outs.'),
+    'C10': ('Server invariant table_unique (connected clients have pairwise distinct ids and pairwise distinct addresses) is preserved by process_packet_internal and handle_connection_request (Verus, U19, verbatim); '
+            'ClientConnected adds exactly one new session in a free slot with an id and address not connected before; ClientDisconnected removes exactly the named session; any other outcome leaves the set of sessions and their keys as they were; '
+            'a payload is attributed to the session of the sending address; a request never touches the table of connected clients.',
+            'Assumed: find_client_* / free-slot search (one-line iterator chains) by their evident contracts; AEAD idealisation. Not decided: update_client / disconnect (time-outs, explicit disconnects), set_max_clients, the bound max_clients (the table length is fixed at construction; lowering the limit is outside the property).'),
     'C14': ('Per channel call: payload bytes put into packets (plus the pending small-message batch) equal the decrease of available_bytes, which never grows; '
             'a reliable message or slice that does not fit stays queued untouched, an unreliable message that does not fit is dropped whole (Verus: SendChannelUnreliable::get_packets_to_send '
             'verbatim with loop invariants; body of the reliable send loop outlined by rule D6).',
@@ -107,8 +118,6 @@ CLAIMS.update({
 })
 
 NOT_APPLICABLE = {
-    'C05': 'decided entirely inside NetcodeServer::handle_connection_request/process_packet_internal: Verus rejects their iterator/closure/borrowed-result style and Kani cannot instantiate NetcodeServer (HashMap field; measured).',
-    'C10': 'connection-table invariant is maintained only by NetcodeServer handshake code, out of reach of both engines (measured); no leaf function carries part of it.',
     'C20': 'property about real UDP sockets and two crates kept in lock-step across an I/O history; no contract within reach can express it.',
 }
 
